@@ -79,6 +79,10 @@ pub struct LCase {
     /// weak pointers are brought to `MAX_WEAK - weak_gap` before the walk (255 = leave them alone)
     pub weak_gap: u8,
     pub walk: Vec<LOp>,
+    /// every `Cc` is released (value dropped, by the counter or - for the self cycle - by the
+    /// collector) before the walk; only the `Weak`s remain and the walk runs on a dead allocation
+    #[serde(default)]
+    pub dead: bool,
 }
 
 impl LCase {
@@ -99,8 +103,8 @@ pub fn strategy() -> BoxedStrategy<LCase> {
         4 => Just(LOp::Drop),
         3 => Just(LOp::WeakDrop),
     ];
-    (any::<bool>(), any::<bool>(), any::<bool>(), 0u8..3, 0u8..4, prop_oneof![2 => 0u8..4, 1 => Just(255u8)], prop::collection::vec(op, 1..=40))
-        .prop_map(|(prefinalized, self_cycle, side_record, route, strong_gap, weak_gap, walk)| LCase { prefinalized, self_cycle, side_record, route, strong_gap, weak_gap, walk })
+    (any::<bool>(), any::<bool>(), any::<bool>(), 0u8..3, 0u8..4, prop_oneof![2 => 0u8..4, 1 => Just(255u8)], prop::collection::vec(op, 1..=40), prop::bool::weighted(0.25))
+        .prop_map(|(prefinalized, self_cycle, side_record, route, strong_gap, weak_gap, walk, dead)| LCase { prefinalized, self_cycle, side_record, route, strong_gap, weak_gap: if dead && weak_gap == 255 { 1 } else { weak_gap }, walk, dead })
         .boxed()
 }
 
@@ -113,9 +117,22 @@ pub struct LResult {
     pub log: Vec<String>,
 }
 
+/// Every rule belongs to C16; the count rules are also the statements of C04 (strong counts), C09
+/// (weak counts, side record) and C08 (upgrade) evaluated at the boundary values.
 fn vio(r: &mut LResult, sig: &str, detail: String) {
+    let mut props = vec!["C16".to_string()];
+    let rule = sig.split('/').next().unwrap();
+    match rule {
+        "strong-count-after-op" | "drop-count-at-end" | "clone-refused-below-limit" => props.push("C04".into()),
+        "weak-count-after-op" | "weak-view-after-op" | "dead-weak-count" | "dead-strong-count" | "weak-clone-refused-below-limit" | "downgrade-refused-below-limit" | "side-record-at-end" => props.push("C09".into()),
+        "upgrade-none-on-live" | "upgrade-failed-below-limit" | "upgrade-refused-below-limit" | "alive-after-release" | "dead-upgrade" => props.push("C08".into()),
+        _ => {}
+    }
+    if rule == "strong-count-after-op" || rule == "dead-strong-count" {
+        props.push("C08".into());
+    }
     if r.violations.len() < 16 {
-        r.violations.push(Violation { props: vec!["C16".into()], rule: sig.split('/').next().unwrap().into(), sig: sig.into(), detail, op: -1, hard: false });
+        r.violations.push(Violation { props, rule: rule.into(), sig: sig.into(), detail, op: -1, hard: false });
     }
 }
 
@@ -126,6 +143,9 @@ pub fn run(case: &LCase, logging: bool) -> LResult {
     #[cfg(feature = "auto-collect")]
     let _ = rust_cc::config::config(|c| c.set_auto_collect(false));
     // the object
+    // the crate's allocations of this case are tracked: a released box is poisoned and quarantined,
+    // so a read through a stale pointer is deterministic instead of undefined
+    let _bracket = crate::alloc::Bracket::open();
     let first: Cc<Obj> = if case.prefinalized && cfg!(feature = "finalization") {
         let maker = Cc::new(Obj { me: RefCell::new(None), maker: true });
         drop(maker);
@@ -179,6 +199,11 @@ pub fn run(case: &LCase, logging: bool) -> LResult {
                 weak.push(weak[0].clone());
             }
         }
+    }
+    #[cfg(feature = "weak-ptrs")]
+    if case.dead {
+        run_dead(case, &mut r, strong, weak, logging);
+        return r;
     }
     let flags0 = {
         let s = verif::object_snapshot(&strong[0]);
@@ -330,6 +355,13 @@ pub fn run(case: &LCase, logging: bool) -> LResult {
             vio(&mut r, "already-finalized-changed", format!("already_finalized() changed after {:?}", op));
         }
     }
+    if !r.violations.is_empty() {
+        // the counters are wrong: releasing the pointers could free the object early; leak everything
+        std::mem::forget(strong);
+        #[cfg(feature = "weak-ptrs")]
+        std::mem::forget(weak);
+        return r;
+    }
     // still correctly managed: release everything
     #[cfg(feature = "weak-ptrs")]
     let probe = strong[0].downgrade_or_first(&weak);
@@ -362,6 +394,104 @@ pub fn run(case: &LCase, logging: bool) -> LResult {
     r
 }
 
+/// The walk on a dead allocation: the value is released first (reference counting, or the
+/// collector for the self cycle), then only `Weak` operations remain meaningful.
+#[cfg(feature = "weak-ptrs")]
+fn run_dead(case: &LCase, r: &mut LResult, strong: Vec<Cc<Obj>>, mut weak: Vec<Weak<Obj>>, logging: bool) {
+    if weak.is_empty() {
+        weak.push(strong[0].downgrade());
+    }
+    if case.self_cycle {
+        drop(strong);
+        collect_cycles();
+        collect_cycles();
+    } else {
+        drop(strong);
+    }
+    let drops = DROPS.with(|f| f.get());
+    if drops != 1 {
+        vio(r, "drop-count-at-end", format!("object dropped {} times after releasing every Cc (weak pointers remain)", drops));
+        std::mem::forget(weak);
+        return;
+    }
+    let bytes = rust_cc::state::allocated_bytes().unwrap_or(1);
+    if bytes != 0 {
+        vio(r, "bytes-at-end", format!("allocated_bytes() = {} after the value was released", bytes));
+    }
+    let mut was_at_limit = false;
+    let mut left_limit = false;
+    for op in &case.walk {
+        let wc = weak.len() as u32;
+        if logging {
+            r.log.push(format!("{:?} on the dead allocation at weak {}", op, wc));
+        }
+        match op {
+            LOp::WeakClone | LOp::Downgrade | LOp::Clone => {
+                let res = catch_unwind(AssertUnwindSafe(|| weak[0].clone()));
+                match res {
+                    Ok(w) => {
+                        if wc >= MAX_WEAK {
+                            vio(r, "weak-clone-beyond-limit/dead", format!("Weak::clone on a dead allocation succeeded at weak count {}", wc));
+                        }
+                        weak.push(w);
+                    }
+                    Err(_) => {
+                        if wc < MAX_WEAK {
+                            vio(r, "weak-clone-refused-below-limit/dead", format!("Weak::clone on a dead allocation panicked at weak count {}", wc));
+                        } else {
+                            r.hit_weak += 1;
+                        }
+                    }
+                }
+            }
+            LOp::Upgrade => {
+                let res = catch_unwind(AssertUnwindSafe(|| weak[0].upgrade()));
+                match res {
+                    Ok(None) => {}
+                    Ok(Some(c)) => {
+                        vio(r, "dead-upgrade/some", "upgrade of a Weak to a released value returned Some".into());
+                        std::mem::forget(c);
+                        std::mem::forget(weak);
+                        return;
+                    }
+                    Err(_) => vio(r, "dead-upgrade/panicked", "upgrade of a Weak to a released value panicked".into()),
+                }
+            }
+            LOp::Drop | LOp::WeakDrop => {
+                if weak.len() > 1 {
+                    drop(weak.pop());
+                }
+            }
+        }
+        let wl = weak.len() as u32;
+        if wl == MAX_WEAK {
+            if left_limit && was_at_limit {
+                r.moved_away_and_back = true;
+            }
+            was_at_limit = true;
+        } else if was_at_limit {
+            left_limit = true;
+        }
+        let (gs, gw) = catch_unwind(AssertUnwindSafe(|| (weak[0].strong_count(), weak[0].weak_count()))).unwrap_or((u32::MAX, u32::MAX));
+        if gw != wl {
+            vio(r, "dead-weak-count", format!("Weak::weak_count() = {} after {:?} on the dead allocation, {} weak pointers exist", gw, op, wl));
+        }
+        if gs != 0 {
+            vio(r, "dead-strong-count", format!("Weak::strong_count() = {} after {:?} although the value was released", gs, op));
+        }
+        if let Some(w) = weak.last() {
+            if catch_unwind(AssertUnwindSafe(|| w.upgrade().map(std::mem::forget).is_some())).unwrap_or(true) {
+                vio(r, "dead-upgrade/some-after-op", format!("a Weak to the released value upgrades (or panics) after {:?}", op));
+            }
+        }
+        if !r.violations.is_empty() {
+            std::mem::forget(weak);
+            return;
+        }
+    }
+    drop(weak);
+}
+
 #[cfg(feature = "weak-ptrs")]
 trait ProbeExt {
     fn downgrade_or_first(&self, weak: &[Weak<Obj>]) -> Option<Weak<Obj>>;
@@ -381,7 +511,15 @@ impl ProbeExt for Cc<Obj> {
 pub fn run_on_thread(case: &LCase, logging: bool) -> LResult {
     let c = case.clone();
     let r = std::thread::Builder::new().stack_size(1 << 20).spawn(move || run(&c, logging)).expect("spawn").join();
+    let av = crate::alloc::take_violations();
     crate::alloc::end_case();
+    let r = r.map(|mut r| {
+        for v in av {
+            let sig = if v.kind == 1 { "allocator/double-free" } else { "allocator/layout-mismatch" };
+            r.violations.push(Violation { props: vec!["C16".into(), "C09".into(), "C03".into()], rule: "allocator".into(), sig: sig.into(), detail: format!("{:?}", v), op: -1, hard: false });
+        }
+        r
+    });
     r.unwrap_or_else(|_| {
         let mut r = LResult::default();
         r.violations.push(Violation {
